@@ -354,7 +354,14 @@ func runC18(rn *runner) {
 	f, res := rn.f, rn.res
 	if f.Replay != "" {
 		rp, err := common.LoadReplay(f.Replay)
-		if err == nil {
+		if err == nil && strings.HasPrefix(rp.Violation.Input["fn"], "Scan") {
+			rn.replayScan(rp.Violation.Input)
+		} else if err == nil && rp.Violation.Input["fn"] == "strconv.Unquote" {
+			x := common.UnHex(rp.Violation.Input["x"])
+			rn.add(pending{x: x, fn: "strconv.Unquote", extra: map[string]string{}, mk: func(c []byte) (string, string) {
+				return "uq " + common.Hex(c), implUnquote(string(c))
+			}})
+		} else if err == nil {
 			rn.caseC18(common.UnHex(rp.Violation.Input["x"]), "replay", nil)
 		} else {
 			res.Notes = append(res.Notes, "cannot load replay: "+err.Error())
@@ -363,7 +370,11 @@ func runC18(rn *runner) {
 	}
 	for _, p := range corpusFiles(f.Corpus) {
 		if rp, err := common.LoadReplay(p); err == nil {
-			rn.caseC18(common.UnHex(rp.Violation.Input["x"]), "corpus", nil)
+			if strings.HasPrefix(rp.Violation.Input["fn"], "Scan") {
+				rn.replayScan(rp.Violation.Input)
+			} else {
+				rn.caseC18(common.UnHex(rp.Violation.Input["x"]), "corpus", nil)
+			}
 		}
 	}
 	for _, h := range handC18 {
@@ -436,7 +447,14 @@ func runC18(rn *runner) {
 			rn.caseC18(lc.src, "large", lc.paths)
 		}
 	}
+	// the consumers: ScanDir / ScanFiles on generated directories, strconv.Unquote of import literals
+	nDirs, nUq := 250, 15000
+	if f.Tier == "thorough" {
+		nDirs, nUq = 4000, 400000
+	}
+	runScan(rn, nDirs)
+	runUnquote(rn, nUq)
 	res.Exhaustive = false
-	res.Rule = fmt.Sprintf("corpus; %d hand-written inputs, each also with a BOM in front; %d grammar-based Go files (optional BOM, trivia = blanks/newlines/semicolons/line and block comments, package clause, 0-3 import declarations single or grouped, specs plain/named/./_, raw, interpreted and escaped path literals, followed by declarations), every one generated as an abstract section of the Coq grammar G, found well-formed (wf_section) and rendered to the same bytes with the same paths by the extracted model, and validated by go/parser (accepted, same import literals); %d byte-level mutations of such files; %d random token/byte soups (NUL, partial BOM, unterminated strings and comments); large inputs (600-3000 single/grouped/aliased imports, 50k-byte comments, path strings and identifiers, 20k blank lines / semicolons before and between imports, 20k-60k byte unterminated strings and comments) on the direct oracles only (the model is asked for inputs up to %d bytes). Non-trivial: go/parser accepts, or the reader reports imports or an error. Oracles: no panic / termination under a 20 s watchdog; output is a prefix of the input (BOM aside); syntax error with report=true => whole input and nil error with report=false (NUL error allowed when the input contains NUL); whenever go/parser accepts the input, same unquoted import paths in order with a nil error, and the returned prefix parses (ImportsOnly) to the same imports.",
+	res.Rule = fmt.Sprintf("corpus; %d hand-written inputs, each also with a BOM in front; %d grammar-based Go files (optional BOM, trivia = blanks/newlines/semicolons/line and block comments, package clause, 0-3 import declarations single or grouped, specs plain/named/./_, raw, interpreted and escaped path literals, followed by declarations), every one generated as an abstract section of the Coq grammar G, found well-formed (wf_section) and rendered to the same bytes with the same paths by the extracted model, and validated by go/parser (accepted, same import literals); %d byte-level mutations of such files; %d random token/byte soups (NUL, partial BOM, unterminated strings and comments); large inputs (600-3000 single/grouped/aliased imports, 50k-byte comments, path strings and identifiers, 20k blank lines / semicolons before and between imports, 20k-60k byte unterminated strings and comments) on the direct oracles only (the model is asked for inputs up to %d bytes). Non-trivial: go/parser accepts, or the reader reports imports or an error. Oracles: no panic / termination under a 20 s watchdog; output is a prefix of the input (BOM aside); syntax error with report=true => whole input and nil error with report=false (NUL error allowed when the input contains NUL); whenever go/parser accepts the input, same unquoted import paths in order with a nil error, and the returned prefix parses (ImportsOnly) to the same imports. Consumers: "+scanRule+" strconv.Unquote against the model's unquote on all pairs of an escape/UTF-8 atom vocabulary and on generated literals.",
 		len(handC18), nGen, nMut, nRaw, modelMaxLen)
 }
